@@ -5,6 +5,9 @@ from .common import *
 from ..world import strip_refs
 
 PROP = "C14"
+# a rejected writer leaves no trace: its commit inserts nothing (the insert sits behind the integrity and size guards) and
+# its rejection arms touch nothing (C08's clauses, re-checked here)
+C08_RULES = ("rejection-has-no-effect", "g1-integrity-guard", "g2-size-guard", "g1-failure-arm", "g2-failure-arm")
 
 ESCAPES = re.compile(r"^(std::mem::forget|std::mem::ManuallyDrop::<T>::new|std::boxed::Box::<T(, A)?>::(leak|into_raw)|"
                      r"std::sync::Arc::<T(, A)?>::into_raw|std::rc::Rc::<T(, A)?>::into_raw|std::mem::MaybeUninit::<T>::new)$")
@@ -160,10 +163,10 @@ def check_config(cfg, w, rep):
     for p in R.commits:
         c08.check_commit(cfg, w, sub, prog.fns[p])
     for (c_, rule, k, desc, ok) in sub.obligations:
-        if rule == "rejection-has-no-effect" and ok:
+        if rule in C08_RULES and ok:
             rep.ob(cfg, "f/" + rule, k, desc)
     for k, v in sub.violations.items():
-        if v.rule == "rejection-has-no-effect":
+        if v.rule in C08_RULES:
             rep.violation("f:%s" % k, v.msg, loc=v.loc, config=cfg, rule="f/" + v.rule)
 
     # ---- (e) commit/close consume the writer ----
